@@ -308,8 +308,7 @@ Section Verify.
       length cid = 32%nat /\ length oid = 32%nat /\
       is_Some (s !! (pM :: cid)) /\                      (* container has meta-on-chain *)
       (exists v, mget m k_network = Halt v /\ conv_int v = Halt (Some network)) /\
-      (exists v, mget m k_validuntil = Halt v /\
-         (conv_int v = Halt None \/ exists z, conv_int v = Halt (Some z) /\ cur < z)) /\
+      (exists v z, mget m k_validuntil = Halt v /\ conv_int v = Halt (Some z) /\ cur < z) /\
       verify s cid raw sigs = Halt true /\               (* the signed message is the raw meta *)
       ns = [NObjectPut cid oid].
 
@@ -343,8 +342,8 @@ Section Verify.
     { exists vnet. split; [exact Hvnet|]. destruct magic as [z|]; [|discriminate].
       apply oassert_halt, Z.eqb_eq in Hm2. by subst. }
     split.
-    { exists vvub. split; [exact Hvvub|]. destruct vub as [z|]; [right|by left].
-      exists z. split; [exact Hvub|]. apply oassert_halt in Hv2. lia. }
+    { destruct vub as [z|]; [|discriminate]. exists vvub, z. split; [exact Hvvub|].
+      split; [exact Hvub|]. apply oassert_halt in Hv2. lia. }
     split; [exact Hver|reflexivity].
   Qed.
 End Verify.
